@@ -17,6 +17,8 @@ if rc not in (0, 1):
 BOUNDED = {
  'C07': [('bounded/strings', ['-n', '3'], ['-n', '4'],
           'substring / normalize-space / translate / string-length through the real Exec on every string up to N characters over an alphabet with ASCII, XML and non-XML white space, 2-, 3- and 4-byte and combining characters, and every position/length from a grid with fractions, negatives, NaN and infinities, compared with an independent character-level oracle; results checked for UTF-8 validity')],
+ 'C08': [('bounded/parse', ['-n', '2', '-sample', '1500'], ['-n', '3', '-sample', '6000'],
+          'the generated lexer/GLL parser behind BuildExpr: (1) every operator tree up to depth N (sampled from depth 2) over 23 leaves incl. names spelling axes/node types, names with - . digits, paths, calls, variables, rendered with minimal and redundant parentheses and three white-space layouts, must evaluate through BuildExpr+Exec to the value an independent evaluator computes on the tree (precedence, associativity, * / operator-name disambiguation); (2) BuildExpr must accept exactly the strings an independent recursive-descent recogniser of XPath 1.0 (plus the function-step extension) accepts, over all renderings and their single-token deletions, duplications and swaps, and never panic')],
  'C10': [('bounded/store', ['-n', '7'], ['-n', '8'],
           'event loop of store.createInMemory: every Parser-contract-conforming event stream up to N events through the real store, compared with an independently built tree (nesting, positions, parent/list consistency, owned namespace nodes), plus one flat stream of 10^6 elements')],
 }
@@ -28,13 +30,26 @@ for d, qa, ta, what in BOUNDED.get(prop, []):
     os.makedirs(os.path.dirname(out), exist_ok=True)
     if not os.path.exists(os.path.join(V, d, 'go.sum')):
         subprocess.run(['cp', '/repo/go.sum', os.path.join(V, d, 'go.sum')])
-    p = subprocess.run(['go', 'run', '.'] + args + ['-o', out], cwd=os.path.join(V, d), env=env, capture_output=True, text=True)
+    # defect classes of this stand-in that known-findings.json lists for this property (obligation "bounded:<dir>/<class>")
+    listed = {}
+    try:
+        for k in json.load(open(os.path.join(V, 'known-findings.json'))).get('findings', []):
+            pre = 'bounded:%s/' % d
+            if k.get('property') == prop and k.get('obligation', '').startswith(pre):
+                listed[k['obligation'][len(pre):]] = k
+    except Exception:
+        pass
+    extra = ['-known', ','.join(sorted(listed))] if listed else []
+    p = subprocess.run(['go', 'run', '.'] + args + extra + ['-o', out], cwd=os.path.join(V, d), env=env, capture_output=True, text=True)
     summ = {}
     try:
         summ = json.load(open(out))
     except Exception:
         summ = {'error': (p.stdout + p.stderr)[-2000:]}
     ok = p.returncode == 0 and not summ.get('failures') and 'error' not in summ
+    for cls, info in sorted((summ.get('known_classes') or {}).items()):
+        if cls in listed:
+            print('KNOWN-FINDING: property=%s bounded:%s/%s %s (witness %r, %d inputs of this class in this run)' % (prop, d, cls, listed[cls].get('what', ''), info.get('witness'), info.get('count', 0)))
     bounded.append({'stands_in_for': what, 'bound': ' '.join(args), 'label': 'bounded (not a proof, not counted in obligations)', 'result': 'no failure' if ok else 'FAILED', 'summary': {k: v for k, v in summ.items() if k != 'failures'}})
     if not ok:
         viol += 1
